@@ -62,6 +62,7 @@ def run(tier):
     conds = [xengine.Cond('c07', 'h_e_cmd_%d' % i, T, symbolic=True, note='%s %s' % (t, ' '.join(str(a) for a in argv)))
              for i, (t, argv) in enumerate(H.COMMANDS)]
     conds.append(xengine.Cond('c07', 'h_e_lib', T, symbolic=True))
+    conds.append(xengine.Cond('c07', 'h_e_lib_stream', T, symbolic=False, note='seeded draws from five deterministic non-MT streams; dense requests'))
     part = xengine.run_conditions('c07.x', conds)
     import sys
     xengine.encoded(part, sys.modules['cnfgen.clitools.cnfgen'].cli, sys.modules['cnfgen.clitools.pbgen'].cli,
@@ -69,6 +70,6 @@ def run(tier):
     run.add(part, {'harness': 'c07.x', 'engine': 'X (self-composition)', 'conditions': len(conds)})
     from ..core import Part
     p2 = Part()
-    process_sweep(p2, H.COMMANDS)
+    process_sweep(p2, H.COMMANDS + H.NAMED_COMMANDS)
     run.add(p2, {'harness': 'c07.proc', 'engine': 'plain process sweep over PYTHONHASHSEED (auxiliary, not solver-decided)'})
     return run.finish()
